@@ -100,7 +100,7 @@ def run(v):
     if not d["ok"]:
         raise SpecError("ShellDesign failed:\n" + d["tail"])
     q = v.tier == "quick"
-    fam = shell_family(SEED + 150, 12 if q else 60)
+    fam = shell_family(SEED + 150, 24 if q else 120)
     dpath = os.path.join(WORK, f"C15-{v.tier}-defs.ndjson")
     D.write_ndjson(dpath, fam)
     cpath = os.path.join(WORK, f"C15-{v.tier}-cases.ndjson")
